@@ -202,6 +202,8 @@ func boundaryPool() []any {
 		time.Unix(0, 0), time.Unix(0, 1), time.Unix(1, 0), time.Unix(1_600_000_000, 0), time.Unix(1_600_000_000, 1), time.Unix(1_600_000_000, 999_999_999),
 		time.Unix(1_600_000_001, 0), time.Unix(4_000_000_000, 0), time.Unix(9_000_000_000, 5), // year 2255
 		time.Date(2261, 12, 31, 0, 0, 0, 0, time.UTC),
+		time.Date(1, 1, 1, 0, 0, 0, 0, time.UTC), time.Date(1600, 2, 29, 12, 0, 0, 1, time.UTC), time.Date(1677, 9, 21, 0, 12, 43, 145224191, time.UTC), time.Date(1677, 9, 21, 0, 12, 43, 145224193, time.UTC),
+		time.Date(2262, 4, 11, 23, 47, 16, 854775806, time.UTC), time.Date(2262, 4, 11, 23, 47, 16, 854775808, time.UTC), time.Date(2300, 1, 1, 0, 0, 0, 0, time.UTC), time.Date(9999, 12, 31, 23, 59, 59, 999999999, time.UTC),
 		time.Date(1969, 12, 31, 23, 59, 59, 0, time.UTC), time.Date(1700, 1, 1, 0, 0, 0, 0, time.UTC), time.Date(1800, 6, 1, 0, 0, 0, 5, time.UTC), time.Date(2200, 1, 1, 0, 0, 0, 0, time.UTC),
 	} {
 		add(t.In(locs[i%len(locs)]))
@@ -248,6 +250,9 @@ func randomOrderValue(r *gen.Rng, depth int) any {
 		}
 		return s
 	case 9:
+		if r.P(25) {
+			return time.Date(r.Range(1, 9999), time.Month(r.Range(1, 12)), r.Range(1, 28), r.Intn(24), r.Intn(60), r.Intn(60), r.Intn(1_000_000_000), time.UTC)
+		}
 		return r.TimeWide()
 	case 10:
 		if depth > 0 {
